@@ -69,18 +69,31 @@ package tan
 // From the property: the term, the vote and the entries an update carries must be durable
 // before it is acknowledged; write reports that an fsync is needed whenever the update carries
 // entries or a snapshot, or its term or vote differ from the last saved ones
-// (uf savedTerm / savedVote: the hard state last recorded for the replica when write is entered).
+// ("last saved": the hard state remembered for the replica in nodeStates.states when write is entered; nothing
+// remembered counts as the zero state). After a successful write the remembered state is the one just written.
 //@ func (d *db) write [C04 C10]
 //@ noframe
 //@ nobounds
 //@ modifies gUnsynced, gWriteFailed, gDataSynced
 //@ ghostset gUnsynced := old(gUnsynced) || (result1 == nil && result0)
-//@ ensures result1 == nil && (len(u.EntriesToSave) > 0 || u.Snapshot.Index != 0 || u.State.Term != uf("savedTerm", u.ShardID, u.ReplicaID) || u.State.Vote != uf("savedVote", u.ShardID, u.ReplicaID)) ==> result0
-//@ func (s *nodeStates) getState [C04]
-//@ trusted looks up the hard state last recorded for the replica
-//@ ensures result.Term == uf("savedTerm", shardID, replicaID) && result.Vote == uf("savedVote", shardID, replicaID)
-//@ func (s *nodeStates) setState [C04]
-//@ trusted records the hard state in memory
+//@ free requires d.mu.nodeStates != nil && d.mu.nodeStates.states != nil
+//@ ensures result1 == nil && (len(u.EntriesToSave) > 0 || u.Snapshot.Index != 0 || u.State.Term != ite(old(mk(raftio.NodeInfo, u.ShardID, u.ReplicaID) in d.mu.nodeStates.states), old(d.mu.nodeStates.states[mk(raftio.NodeInfo, u.ShardID, u.ReplicaID)].Term), 0) || u.State.Vote != ite(old(mk(raftio.NodeInfo, u.ShardID, u.ReplicaID) in d.mu.nodeStates.states), old(d.mu.nodeStates.states[mk(raftio.NodeInfo, u.ShardID, u.ReplicaID)].Vote), 0)) ==> result0
+//@ ensures result1 == nil ==> mk(raftio.NodeInfo, u.ShardID, u.ReplicaID) in d.mu.nodeStates.states && d.mu.nodeStates.states[mk(raftio.NodeInfo, u.ShardID, u.ReplicaID)].Term == u.State.Term && d.mu.nodeStates.states[mk(raftio.NodeInfo, u.ShardID, u.ReplicaID)].Vote == u.State.Vote && d.mu.nodeStates.states[mk(raftio.NodeInfo, u.ShardID, u.ReplicaID)].Commit == u.State.Commit
+// verified (were trusted): the remembered hard states are an exact map keyed by (shard, replica)
+//@ func (s *nodeStates) getState [C04 C10]
+//@ nobounds
+//@ free requires s.states != nil
+//@ modifies entries(s.states)
+//@ ensures old(mk(raftio.NodeInfo, shardID, replicaID) in s.states) ==> result == old(s.states[mk(raftio.NodeInfo, shardID, replicaID)])
+//@ ensures !old(mk(raftio.NodeInfo, shardID, replicaID) in s.states) ==> result.Term == 0 && result.Vote == 0 && result.Commit == 0
+//@ ensures mk(raftio.NodeInfo, shardID, replicaID) in s.states && s.states[mk(raftio.NodeInfo, shardID, replicaID)] == result
+//@ ensures forall k raftio.NodeInfo :: k != mk(raftio.NodeInfo, shardID, replicaID) ==> (k in s.states) == old(k in s.states) && s.states[k] == old(s.states[k])
+//@ func (s *nodeStates) setState [C04 C10]
+//@ nobounds
+//@ free requires s.states != nil
+//@ modifies entries(s.states)
+//@ ensures mk(raftio.NodeInfo, shardID, replicaID) in s.states && s.states[mk(raftio.NodeInfo, shardID, replicaID)] == st
+//@ ensures forall k raftio.NodeInfo :: k != mk(raftio.NodeInfo, shardID, replicaID) ==> (k in s.states) == old(k in s.states) && s.states[k] == old(s.states[k])
 //@ func isCompactionUpdate [C04 C09]
 //@ ensures result1 == (update.Term == compactionFlag && len(update.EntriesToSave) == 0 && update.Snapshot.Index == 0)
 //@ ensures result1 ==> result0 == update.Commit
@@ -244,10 +257,12 @@ package tan
 //@ extern github.com/cockroachdb/errors/oserror IsNotExist
 
 // setCurrentFile leaves the directory dirty: its callers sync the directory
+// ... and CURRENT is switched to a MANIFEST only after that MANIFEST's last write has been fsynced (a crash right
+// after the switch must not leave CURRENT naming an empty or torn MANIFEST: every log file would look obsolete)
 //@ func setCurrentFile [C10 C04]
 //@ noframe
 //@ nobounds
-//@ requires !gWriteFailed && !gReadFailed
+//@ requires !gWriteFailed && !gReadFailed && gDataSynced
 //@ modifies gWriteFailed, gDirDirty, gDataSynced
 //@ ensures result == nil ==> gDataSynced && !gWriteFailed
 
@@ -312,8 +327,6 @@ package tan
 // replays the log): replacing a replica's history FIRST switches to a fresh log file -- the MANIFEST then
 // drops every older file -- so the imported records never share a log file with the replica's old, higher-indexed
 // records, which a replay of that file would resurrect
-//@ func (d *db) doWriteLocked [C20]
-//@ trusted appends the record to the current log file and indexes it (its parts are under contract for C04/C09)
 //@ func (d *db) installSnapshot [C20]
 //@ noframe
 //@ nobounds
